@@ -5,8 +5,9 @@ C38 — port of the parser's expression core (`/repo/parser/expression.go`) and 
 
 `parseExpr fuel rbp` = `parseExpression(p, rightBindingPower)`: null denotation of the first token, then
 the loop of `applyExprMetaLeftDenotation`: stop when `rbp ≥ lbp(current token)`, otherwise consume the
-token and apply its left denotation.  `fuel` bounds the recursion depth (every call consumes a token,
-so `fuel = number of tokens + 1` always suffices).  Binding powers come from the regenerated tables.
+token and apply its left denotation.  `fuel` bounds the recursion depth; it is an artefact of the port:
+more fuel never changes a result (`Verif.Proofs.PrattFuel`) and `4 * number of tokens + 4` suffices for
+every printed expression (`Verif.Proofs.PrattRT`).  Binding powers come from the regenerated tables.
 
 Ported null denotations: identifiers (`true` / `false` / `nil`), integer and fixed-point literals,
 prefix `-` (with the folding of the sign into a non-negative literal), `!`, `*`, `<-`, `&`,
